@@ -62,11 +62,12 @@ struct bitset {
     {
         auto const len = etl::min<decltype(pos)>(n, str.size() - pos);
         TETL_PRECONDITION(len >= 0);
-        TETL_PRECONDITION(len <= size());
 
-        // The first character corresponds to the most significant bit
-        for (decltype(pos) i = 0; i < len; ++i) {
-            auto const bit = static_cast<etl::size_t>(len - 1 - i);
+        // Only the first size() characters are used. The first character
+        // corresponds to the most significant bit
+        auto const m = etl::min<decltype(pos)>(len, size());
+        for (decltype(pos) i = 0; i < m; ++i) {
+            auto const bit = static_cast<etl::size_t>(m - 1 - i);
             if (Traits::eq(str[i + pos], one)) {
                 set(bit, true);
             }
